@@ -351,7 +351,11 @@ class FingerprintDatabase(object):
         if name is None:
             name = self.name
         fold_arr = csr_matrix(
-            (self.array.data, self.array.indices % bits, self.array.indptr),
+            (
+                self.array.data.copy(),
+                self.array.indices % bits,
+                self.array.indptr.copy(),
+            ),
             shape=self.array.shape,
         )
         fold_arr.sum_duplicates()
